@@ -304,6 +304,7 @@ func IntLit(v int64) string {
 // Script renders the SMT-LIB text of an obligation.
 func (o *Obligation) Script(withModel bool) string {
 	var b bytes.Buffer
+	b.WriteString("; obligation: " + strings.ReplaceAll(o.Name, "\n", " ") + "\n")
 	if withModel {
 		b.WriteString("(set-option :produce-models true)\n")
 	}
